@@ -199,11 +199,8 @@ func (g *psGen) decorateBody(body []Stmt, depth int) []Stmt {
 		i++
 	}
 	// occasionally an empty selected case
-	if r.Chance(1, 10) {
-		w := g.wrapStmts([]Stmt{})
-		if !endsWithContinue(out) {
-			out = append(out, w)
-		}
+	if !endsWithContinue(out) && r.Chance(1, 10) {
+		out = append(out, g.wrapStmts([]Stmt{}))
 	}
 	return out
 }
